@@ -745,7 +745,21 @@ func (c Cmp) Implies(want Cmp) bool {
 		return true
 	}
 	s := c.Swap()
-	return s.L == want.L && s.R == want.R && opImplies(s.Op, want.Op)
+	if s.L == want.L && s.R == want.R && opImplies(s.Op, want.Op) {
+		return true
+	}
+	// x == c1 entails x != c2 for two different constants (the arm of a switch over x)
+	if want.Op == "!=" {
+		w2 := want.Swap()
+		for _, f := range []Cmp{c, s} {
+			for _, w := range []Cmp{want, w2} {
+				if f.Op == "==" && f.L == w.L && strings.HasPrefix(f.R, "c:") && strings.HasPrefix(w.R, "c:") && f.R != w.R && f.R != "c:nil" && w.R != "c:nil" {
+					return true
+				}
+			}
+		}
+	}
+	return false
 }
 
 // CondFacts returns the comparison facts established when cond evaluates to
@@ -762,9 +776,9 @@ func CondFacts(cond ssa.Value, branch bool) []Cmp {
 			// result of a transparent helper compared with nil: what holds on the ways it returns (non-)nil
 			if op == "==" || op == "!=" {
 				var other ssa.Value
-				if IsNilConst(x.Y) {
+				if IsNilConst(x.Y) || isEmptyString(x.Y) {
 					other = x.X
-				} else if IsNilConst(x.X) {
+				} else if IsNilConst(x.X) || isEmptyString(x.X) {
 					other = x.Y
 				}
 				if other != nil {
@@ -867,9 +881,9 @@ func helperResultFacts(f *ssa.Function, call *ssa.CallCommon, idx int, nilKind, 
 		certain, outcome := false, false // outcome: true = "want-like" (bool true / nil)
 		if nilKind {
 			switch {
-			case IsNilConst(v):
+			case IsNilConst(v), isEmptyString(v):
 				certain, outcome = true, true
-			case definitelyNonNil(v):
+			case definitelyNonNil(v), definitelyNonEmpty(v):
 				certain, outcome = true, false
 			}
 		} else {
@@ -922,14 +936,62 @@ func predicateFacts(f *ssa.Function, call *ssa.CallCommon, want bool) []Cmp {
 	return helperResultFacts(f, call, 0, false, want)
 }
 
+// isEmptyString: the constant "" (the "no problem" value of a string-typed status result).
+func isEmptyString(v ssa.Value) bool {
+	c, ok := v.(*ssa.Const)
+	if !ok || c.Value == nil || c.Value.Kind() != constant.String {
+		return false
+	}
+	return constant.StringVal(c.Value) == ""
+}
+
+// definitelyNonEmpty: a non-empty string constant, or fmt.Sprintf with a constant format that contains
+// literal text outside its verbs.
+func definitelyNonEmpty(v ssa.Value) bool {
+	v = Strip(v)
+	if c, ok := v.(*ssa.Const); ok && c.Value != nil && c.Value.Kind() == constant.String {
+		return constant.StringVal(c.Value) != ""
+	}
+	call, ok := v.(*ssa.Call)
+	if !ok || len(call.Call.Args) == 0 {
+		return false
+	}
+	f := StaticCallee(&call.Call)
+	if f == nil || CalleeName(f) != "fmt.Sprintf" {
+		return false
+	}
+	fc, ok := call.Call.Args[0].(*ssa.Const)
+	if !ok || fc.Value == nil || fc.Value.Kind() != constant.String {
+		return false
+	}
+	format := constant.StringVal(fc.Value)
+	// literal text = anything before the first verb
+	return len(format) > 0 && format[0] != '%'
+}
+
 // definitelyNonNil: an error value built on the spot.
-func definitelyNonNil(v ssa.Value) bool {
+func definitelyNonNil(v ssa.Value) bool { return nonNilDepth(v, 0) }
+
+func nonNilDepth(v ssa.Value, depth int) bool {
 	v = Strip(v)
 	if c, ok := v.(*ssa.Call); ok {
 		if f := StaticCallee(&c.Call); f != nil {
 			switch CalleeName(f) {
 			case "fmt.Errorf", "errors.New":
 				return true
+			}
+			// a module function with one result that builds such a value on every return
+			if depth < 2 && InModule(f) && f.Blocks != nil && f.Signature.Results().Len() == 1 {
+				rets := Returns(f)
+				all := len(rets) > 0
+				for _, r := range rets {
+					if !nonNilDepth(ResultValues(r)[0], depth+1) {
+						all = false
+					}
+				}
+				if all {
+					return true
+				}
 			}
 		}
 	}
@@ -1029,6 +1091,10 @@ func EdgesImplying(fn *ssa.Function, want Cmp) []Edge {
 type Cut struct {
 	Edges  []Edge
 	Instrs func(ssa.Instruction) bool // instructions at which a path stops
+	// RetTrue restricts targets that are return statements of the analysed function to those that can
+	// return true: a returned phi is resolved per incoming path; a constant false is no target, and a
+	// computed value is no target on a way where being true would establish one of Facts.
+	RetTrue bool
 	// Facts, when set, are the comparisons the Edges were selected for: a branch on a boolean that was
 	// materialised first (a phi of `a && b`, the non-constant result of a predicate helper) is resolved
 	// per incoming path, and the way on which its value establishes one of these facts is cut as well.
@@ -1217,7 +1283,21 @@ func (r *reacher) run(b0 *ssa.BasicBlock, i0 int) (ssa.Instruction, bool) {
 				continue
 			}
 			if r.target(in) {
-				return in, exits
+				skip := false
+				if ret, ok := in.(*ssa.Return); ok && r.cut != nil && r.cut.RetTrue && len(ret.Results) == 1 {
+					v := ResultValues(ret)[0]
+					if ph := phiReturn(s.b); ph != nil && s.i == 0 {
+						if w := incoming(ph, s.pred); w != nil {
+							v = w
+						}
+					}
+					if IsConstBool(v, false) || (!IsConstBool(v, true) && r.cut.factCut(v, true)) {
+						skip = true
+					}
+				}
+				if !skip {
+					return in, exits
+				}
 			}
 			if r.cut != nil && r.cut.Instrs != nil && r.cut.Instrs(in) {
 				stopped = true
